@@ -88,3 +88,24 @@ def pmap(fn: Callable, items: list, chunksize: int = 1, procs: int | None = None
 
 def exc_name(e: BaseException) -> str:
     return type(e).__name__
+
+
+def jleaf(x):
+    """Type-strict spelling of a JSON scalar: Python's == conflates true/1/1.0 and false/0/0.0/-0.0,
+    JSON documents do not."""
+    if isinstance(x, bool):
+        return ("bool", x)
+    if isinstance(x, float):
+        return ("float", repr(x))
+    return x
+
+
+def jstrict(x):
+    """A JSON-like value with every scalar replaced by its type-strict spelling (for == comparison)."""
+    if isinstance(x, list):
+        return [jstrict(y) for y in x]
+    if isinstance(x, tuple):
+        return tuple(jstrict(y) for y in x)
+    if isinstance(x, dict):
+        return {k: jstrict(v) for k, v in x.items()}
+    return jleaf(x)
